@@ -47,6 +47,8 @@ pub struct State {
     pub tasks_finished: u32,
     pub tasks_dropped: u32,
     pub tasks: [TaskCell; MAX_TASKS],
+    /// virtual time at which each task was spawned
+    pub spawn_times: [Duration; MAX_TASKS],
 }
 pub const MAX_TASKS: usize = 6;
 pub type TaskCell = Option<core::pin::Pin<Box<dyn core::future::Future<Output = ()>>>>;
@@ -80,6 +82,7 @@ pub static mut ST: State = State {
     tasks_finished: 0,
     tasks_dropped: 0,
     tasks: [NO_TASK; MAX_TASKS],
+    spawn_times: [Duration::ZERO; MAX_TASKS],
 };
 
 pub fn st() -> &'static mut State {
@@ -125,6 +128,7 @@ pub(crate) fn push_task(t: core::pin::Pin<Box<dyn core::future::Future<Output = 
     let id = s.spawned as usize;
     assert!(id < MAX_TASKS, "tokio model: more than MAX_TASKS tasks spawned");
     s.tasks[id] = Some(t);
+    s.spawn_times[id] = s.now;
     s.spawned += 1;
     id
 }
